@@ -305,7 +305,10 @@ class HybridClass(metaclass=MetaHybridClass):
         defaults = {}
         for field in obj._XoStruct._fields:
             try:
-                defaults[field.name] = field.get_default()
+                # keyed like fields_to_store, by the (possibly renamed)
+                # python-side name
+                pyname = obj._rename.get(field.name, field.name)
+                defaults[pyname] = field.get_default()
             except (TypeError, ValueError):
                 # The above can fail with different error types
                 # if a field type is dynamic.
